@@ -87,9 +87,24 @@ def Val.isData : Val → Bool
   | .fill => false
   | _ => true
 
-abbrev Store := Loc → Option Val
+/-- Contents of the storage.  A structure around the lookup function (rather than a bare function type) so
+that the compiled driver builds each store once instead of re-running the code that produced it on every
+lookup. -/
+structure Store where
+  get : Loc → Option Val
 
-def Store.set (σ : Store) (l : Loc) (v : Val) : Store := fun l' => if l' = l then some v else σ l'
+instance : CoeFun Store (fun _ => Loc → Option Val) := ⟨Store.get⟩
+
+instance : Inhabited Store := ⟨⟨fun _ => none⟩⟩
+
+def Store.empty : Store := ⟨fun _ => none⟩
+
+def Store.set (σ : Store) (l : Loc) (v : Val) : Store := ⟨fun l' => if l' = l then some v else σ l'⟩
+
+@[simp] theorem Store.set_get (σ : Store) (l : Loc) (v : Val) (l' : Loc) :
+    (σ.set l v) l' = if l' = l then some v else σ l' := rfl
+
+@[simp] theorem Store.empty_get (l : Loc) : Store.empty l = none := rfl
 
 /-- `mapM` in `Option`. -/
 def mapOpt {α β : Type} (f : α → Option β) : List α → Option (List β)
@@ -131,7 +146,7 @@ deriving Repr, Inhabited
 structure State where
   heap : List OpObj := []        -- newest first; the op producing array `n` is at distance `n` from the end
   arrs : List Arr := []          -- every array object ever built, in creation order (pool index)
-  store : Store := fun _ => none
+  store : Store := Store.empty
   used : List Nat := []          -- target ids already handed to store / to_zarr
 deriving Inhabited
 
